@@ -20,8 +20,8 @@ Span(c, line) ==
     ELSE IF line = c.ref_line THEN {<<line, ch>> : ch \in 0..5}            \* "[r](2)"
     ELSE IF line = c.item_line THEN {<<line, ch>> : ch \in 5..10}          \* "- it [i](2)"
     ELSE IF line = c.j_line THEN {<<line, ch>> : ch \in 7..12}             \* "  more [j](2)"
-    ELSE IF line = c.k_line THEN {<<line, ch>> : ch \in 4..c.maxch}       \* "- k [wra": the link runs to the end of the line
-    ELSE IF line = c.k2_line THEN {<<line, ch>> : ch \in 2..9}            \* "  pped](2)"
+    ELSE IF line = c.k_line THEN {<<line, ch>> : ch \in 11..c.maxch}      \* "- kkkkkkkk [wra": the link runs to the end of the line
+    ELSE IF line = c.k2_line THEN {<<line, ch>> : ch \in 2..6}            \* "  p](2)"
     ELSE IF line = c.quote_line THEN {<<line, ch>> : ch \in 2..7}          \* "> [q](2)"
     ELSE IF line = c.wiki_line THEN {<<line, ch>> : ch \in (2..6) \cup (10..16)}   \* "w [[2]] x [[2|s]] y"
     ELSE IF line = c.cell_line THEN {<<line, ch>> : ch \in 6..11}          \* "| c | [c](2) |"
@@ -32,7 +32,7 @@ Window(c) == UNION {{<<line, ch>> : ch \in 0..c.maxch} : line \in 0..(c.last_lin
 Expected(c) == (UNION {Span(c, line) : line \in 0..(c.last_line + 1)}) \cap Window(c)
 \* not judged: the indentation of the continuation line of the wrapped link (the link's span is kept as one
 \* start..end pair, so these two columns count as inside it) and the columns past the end of its first line
-DontCare(c) == {<<c.k2_line, 0>>, <<c.k2_line, 1>>} \cup {<<c.k_line, ch>> : ch \in 8..c.maxch}
+DontCare(c) == {<<c.k2_line, 0>>, <<c.k2_line, 1>>} \cup {<<c.k_line, ch>> : ch \in 15..c.maxch}
 
 \* (with nothing before or after it the link under test is itself a block reference)
 RefBlockLines(c) == IF c.prefix = <<>> /\ c.suffix = <<>> /\ c.wrap = "none" THEN <<c.link_line, c.ref_line, c.quote_line>> ELSE <<c.ref_line, c.quote_line>>
